@@ -125,17 +125,42 @@ Theorem C08_legacy_skip_refuted : forall fuel r c fin,
 Proof. exact legacy_skip_refuted. Qed.
 Print Assumptions C08_legacy_skip_refuted.
 
+(** The error list (at most 20 errors kept): a full list drops the error but
+    the parser still enters error state, and that is what lets the recovery
+    after a bad entry consume a token whatever the list holds ... *)
+Theorem C08_full_error_list_still_jails : forall e st,
+  (max_errs <= List.length (perrs st))%nat ->
+  perrs (p_add e st) = perrs st /\ jail (p_add e st) = true.
+Proof. exact p_add_full_drops. Qed.
+Print Assumptions C08_full_error_list_still_jails.
+
+Theorem C08_recovery_progress_any_error_count : forall e st,
+  is_eof (cur st) = false -> (msr (snd (skip_err_stmt (p_add e st))) < msr st)%nat.
+Proof. exact recovery_after_add_progress. Qed.
+Print Assumptions C08_recovery_progress_any_error_count.
+
+(** ... whereas an Add that returns for a full list BEFORE setting the flag
+    makes the series loop spin on a bad entry, for every amount of fuel. *)
+Theorem C08_capfirst_add_refuted : forall fuel st,
+  (max_errs <= List.length (perrs st))%nat -> jail st = false ->
+  p_see TEOF st = false -> pty (cur st) <> TString -> pty (cur st) <> TIdent ->
+  series_badname_loop fuel st = None.
+Proof. exact capfirst_add_spins. Qed.
+Print Assumptions C08_capfirst_add_refuted.
+
 (** The source read on this run has the loop condition, the error cap, the
     rune classes and the token tables the model is built on. *)
 Theorem C08_source_agrees_with_model :
   skip_cond_ok gen_skip_cond = true /\
   gen_skip_body = ["p.Next()"%string] /\
   gen_max_errs = Some (N.of_nat max_errs) /\
+  sets_jail_always gen_add_skeleton = true /\ capped_append gen_add_skeleton = true /\
   same_set (disjuncts gen_is_white) [GRuneIs 32; GRuneIs 9; GRuneIs 13] = true /\
   same_set (disjuncts gen_exp_sign_cond) (GCall "IsDigit" :: map GRuneIs exp_signs) = true.
 Proof.
   exact (conj gen_skip_cond_terminates (conj gen_skip_body_agree (conj gen_max_errs_agree
-        (conj gen_is_white_agree gen_exp_sign_agree)))).
+        (conj gen_add_sets_jail_before_cap_return (conj gen_add_capped
+        (conj gen_is_white_agree gen_exp_sign_agree)))))).
 Qed.
 Print Assumptions C08_source_agrees_with_model.
 
@@ -177,6 +202,18 @@ Example C08_unbalanced_example :
   unmarshal (fun _ => @None N) (fun _ => []) [123; 97; 58; 91; 49; 44; 50; 125]
   = Ok (UErr EExpectOp).
 Proof. vm_compute. split; reflexivity. Qed.
+
+(** Twenty-one entries that do not start with a type name: 20 errors kept. *)
+Fixpoint rep_list (n : nat) (l : list N) : list N :=
+  match n with O => [] | S k => l ++ rep_list k l end.
+
+Example C08_many_errors_example :
+  match decode_series (fun _ => @None N) (fun _ => []) (fun _ => true)
+          (rep_list 21 [49; 32; 123; 125; 10]) with       (* "1 {}\n" x 21 *)
+  | Ok (None, errs) => List.length errs
+  | _ => 0%nat
+  end = 20%nat.
+Proof. vm_compute. reflexivity. Qed.
 
 Example C08_legacy_example :
   legacy_skip_loop 1000 (eof_tok []) [] [] = None.
